@@ -19,15 +19,14 @@
 (* Stimuli are only issued at quiescent points (turn = "stim"), which is   *)
 (* exactly how harness/cmd/h2conn drives the real server.                  *)
 (*                                                                         *)
-(* The model is the code AFTER the fix: commits of branch verif-h2conn and *)
-(* models the intended behaviour for the open known findings (DATA /       *)
-(* WINDOW_UPDATE on an idle stream are connection errors).                 *)
+(* The model is the code AFTER the fix: commits of branch verif-h2conn      *)
+(* (marked "fix:" below).                                                  *)
 (***************************************************************************)
 EXTENDS ConnP
 
 CONSTANTS CW0, SW0, OCW0, OSW0, MFS0, MAXS,   \* connection parameters
           SidsUsed, CKinds, Reqs, Trailers, DataLens, Pads, WuIncs, IwsVals, MfsVals, RstCodes,
-          CLs, HOps, ReadLens, WriteLens, N400, MaxSteps, MaxData, MaxHdrs
+          CLs, HOps, ReadLens, WriteLens, N400C, N400T, MaxSteps, MaxData, MaxHdrs
 
 K0 == [cw0 |-> CW0, sw0 |-> SW0, ocw0 |-> OCW0, osw0 |-> OSW0, mfs0 |-> MFS0, maxs |-> MAXS]
 
@@ -46,11 +45,12 @@ VARIABLES p,         \* Layer-P monitor (ConnP)
           hs, hk, hprog, hsent, hret, sent, mineM,
           tag, turn, nstep, ndata, nhdrs,
           last,      \* the stimulus being answered (E0 at quiescent points)
-          holdM      \* HEADERS without END_HEADERS waiting for its CONTINUATION
+          holdM,     \* HEADERS without END_HEADERS waiting for its CONTINUATION
+          want       \* generator only: the kind of stimulus to issue next ("" = any)
 
 mvars == <<st, maxId, inC, inS, buf, bst, clM, bodyM, outC, outS, iwsM, mfsM, ctl, sq, needAck,
            ga, needGA, conn, hs, hk, hprog, hsent, hret, sent, mineM, tag, turn, nstep, ndata, nhdrs,
-           last, holdM>>
+           last, holdM, want>>
 vars == <<p, mvars>>
 
 Fr(k, s) == [E0 EXCEPT !.ev = "s", !.k = k, !.s = s]
@@ -82,7 +82,7 @@ Init ==
   /\ hsent = [s \in Sid |-> FALSE] /\ hret = [s \in Sid |-> FALSE]
   /\ sent = [s \in Sid |-> 0] /\ mineM = [s \in Sid |-> TRUE]
   /\ tag = 0 /\ turn = "stim" /\ nstep = 0 /\ ndata = 0 /\ nhdrs = 0
-  /\ last = E0 /\ holdM = E0
+  /\ last = E0 /\ holdM = E0 /\ want = ""
 
 (***************************************************************************)
 (* Effects shared by several actions, written as functions of a "delta"    *)
@@ -129,7 +129,8 @@ ConnClosed(d) ==
 
 StimAny == turn = "stim" /\ conn = "up" /\ ga = -1 /\ nstep < MaxSteps /\ ~p.dead
 Stimulus == StimAny /\ holdM.k = ""
-After(e) == turn' = "run" /\ nstep' = nstep + 1 /\ last' = e
+After(e) == turn' = "run" /\ nstep' = nstep + 1 /\ last' = e /\ want' = ""
+Want(k) == want = "" \/ want = k
 
 (***************************************************************************)
 (* Client frames                                                           *)
@@ -176,19 +177,19 @@ HeadersEffect(s, r, es, cl) ==
                                  !.hs[s] = IF r \in ValidReq THEN "new" ELSE "push",
                                  !.hprog[s] = IF r \in ValidReq THEN <<>>
                                               ELSE <<Q([Fr("HEADERS", s) EXCEPT !.code = 400], TRUE),
-                                                     Q([Fr("DATA", s) EXCEPT !.n = N400, !.es = TRUE], TRUE)>>])
+                                                     Q([Fr("DATA", s) EXCEPT !.n = IF r = "te" THEN N400T ELSE N400C, !.es = TRUE], TRUE)>>])
 
 
 ClientHeaders(s, r, es, cl) ==
   LET e == [E0 EXCEPT !.ev = "c", !.k = "HEADERS", !.s = s, !.req = r, !.es = es, !.cl = cl] IN
-  /\ Stimulus /\ "HEADERS" \in CKinds /\ nhdrs < MaxHdrs
+  /\ Stimulus /\ Want("HEADERS") /\ "HEADERS" \in CKinds /\ nhdrs < MaxHdrs
   /\ p' = PClient(p, e) /\ After(e) /\ nhdrs' = nhdrs + 1 /\ UNCHANGED holdM
   /\ HeadersEffect(s, r, es, cl)
 
 \* HEADERS without END_HEADERS: the framer waits for CONTINUATION, nothing reaches serve()
 ClientHeadersNEH(s, r, es) ==
   LET e == [E0 EXCEPT !.ev = "c", !.k = "HEADERS", !.s = s, !.req = r, !.es = es, !.op = "neh"] IN
-  /\ Stimulus /\ "NEH" \in CKinds /\ nhdrs < MaxHdrs
+  /\ Stimulus /\ Want("NEH") /\ "NEH" \in CKinds /\ nhdrs < MaxHdrs
   /\ p' = PClient(p, e) /\ After(e) /\ nhdrs' = nhdrs + 1 /\ holdM' = e
   /\ Apply(Cur)
   /\ UNCHANGED <<maxId, inS, clM, bodyM, outC, outS, iwsM, mfsM, needAck, hk, hsent, hret, sent,
@@ -197,14 +198,14 @@ ClientHeadersNEH(s, r, es) ==
 \* the CONTINUATION completes the block
 ClientCont ==
   LET e == [E0 EXCEPT !.ev = "c", !.k = "CONT", !.s = holdM.s] IN
-  /\ StimAny /\ holdM.k # ""
+  /\ StimAny /\ Want("CONT") /\ holdM.k # ""
   /\ p' = PClient(p, e) /\ After(e) /\ holdM' = E0 /\ UNCHANGED nhdrs
   /\ HeadersEffect(holdM.s, holdM.req, holdM.es, -1)
 
 \* any other frame inside a header block: checkFrameOrder -> connection error
 ClientBreak(k) ==
   LET e == [E0 EXCEPT !.ev = "c", !.k = k, !.s = 0, !.inc = IF k = "PING" THEN nstep + 1 ELSE 0] IN
-  /\ StimAny /\ holdM.k # ""
+  /\ StimAny /\ Want("BREAK") /\ holdM.k # ""
   /\ p' = PClient(p, e) /\ After(e) /\ holdM' = E0
   /\ Apply(ConnErr(Cur, PROTOCOL))
   /\ UNCHANGED <<maxId, inS, clM, bodyM, outC, outS, iwsM, mfsM, needAck, hk, hsent, hret, sent,
@@ -214,22 +215,23 @@ ClientData(s, L, pad, es) ==
   LET t == ((tag + 1) % 250) + 1      \* octet value filling this frame's payload
       d == L - pad
       e == [E0 EXCEPT !.ev = "c", !.k = "DATA", !.s = s, !.n = L, !.p = pad, !.es = es, !.first = t] IN
-  /\ Stimulus /\ "DATA" \in CKinds /\ ndata < MaxData /\ pad <= L
+  /\ Stimulus /\ Want("DATA") /\ "DATA" \in CKinds /\ ndata < MaxData /\ pad <= L
   /\ p' = PClient(p, e)
   /\ After(e) /\ tag' = tag + 1 /\ ndata' = ndata + 1 /\ UNCHANGED holdM
   /\ UNCHANGED <<maxId, clM, outC, outS, iwsM, mfsM, needAck, hk, hsent, hret, sent, mineM, nhdrs>>
   /\ IF st[s] # "open" THEN
        /\ UNCHANGED <<inS, bodyM>>
-       /\ IF st[s] = "idle" /\ s > maxId THEN Apply(ConnErr(Cur, PROTOCOL))   \* intended (F-C35-2)
+       /\ IF st[s] = "idle" /\ s > maxId THEN Apply(ConnErr(Cur, PROTOCOL))   \* fix: (C35)
           ELSE IF inC < L THEN Apply(StreamErr(Cur, s, FLOW))
           ELSE Apply(StreamErr([Cur EXCEPT !.ctl = IF L > 0 THEN Append(@, [Fr("WU", 0) EXCEPT !.inc = L]) ELSE @],
                                s, STREAMCLOSED))
      ELSE IF clM[s] >= 0 /\ bodyM[s] + d > clM[s] THEN
-       \* fix: (C33) the frame is charged to and returned to the connection window
+       \* fix: (C33) the stream is reset, then the frame is charged to and returned to the
+       \* connection window
        /\ UNCHANGED <<inS, bodyM>>
        /\ IF inC < L THEN Apply(StreamErr(Cur, s, FLOW))
-          ELSE Apply(StreamErr([Cur EXCEPT !.ctl = IF L > 0 THEN Append(@, [Fr("WU", 0) EXCEPT !.inc = L]) ELSE @],
-                               s, PROTOCOL))
+          ELSE LET d1 == StreamErr(Cur, s, PROTOCOL) IN
+               Apply([d1 EXCEPT !.ctl = IF L > 0 THEN Append(@, [Fr("WU", 0) EXCEPT !.inc = L]) ELSE @])
      ELSE IF L > 0 /\ Min(inS[s], inC) < L THEN
        /\ UNCHANGED <<inS, bodyM>> /\ Apply(StreamErr(Cur, s, FLOW))
      ELSE
@@ -244,7 +246,7 @@ ClientData(s, L, pad, es) ==
 
 ClientRst(s, c) ==
   LET e == [E0 EXCEPT !.ev = "c", !.k = "RST", !.s = s, !.code = c] IN
-  /\ Stimulus /\ "RST" \in CKinds
+  /\ Stimulus /\ Want("RST") /\ "RST" \in CKinds
   /\ p' = PClient(p, e) /\ After(e) /\ UNCHANGED holdM
   /\ UNCHANGED <<maxId, inS, clM, bodyM, outC, outS, iwsM, mfsM, needAck, hk, hsent, hret, sent,
                  mineM, tag, ndata, nhdrs>>
@@ -254,7 +256,7 @@ ClientRst(s, c) ==
 
 ClientWu(s, inc) ==
   LET e == [E0 EXCEPT !.ev = "c", !.k = "WU", !.s = s, !.inc = inc] IN
-  /\ Stimulus /\ "WU" \in CKinds
+  /\ Stimulus /\ Want("WU") /\ "WU" \in CKinds
   /\ p' = PClient(p, e) /\ After(e) /\ UNCHANGED holdM
   /\ UNCHANGED <<maxId, inS, clM, bodyM, iwsM, mfsM, needAck, hk, hsent, hret, sent, mineM, tag,
                  ndata, nhdrs>>
@@ -264,7 +266,7 @@ ClientWu(s, inc) ==
      ELSE IF s = 0 THEN
        IF Over(outC, inc) THEN UNCHANGED <<outC, outS>> /\ Apply(ConnErr(Cur, FLOW))
        ELSE outC' = outC + inc /\ UNCHANGED outS /\ Apply(Cur)
-     ELSE IF st[s] = "idle" /\ s > maxId THEN   \* intended (F-C35-3)
+     ELSE IF st[s] = "idle" /\ s > maxId THEN   \* fix: (C35)
        UNCHANGED <<outC, outS>> /\ Apply(ConnErr(Cur, PROTOCOL))
      ELSE IF ~InMap(s) THEN UNCHANGED <<outC, outS>> /\ Apply(Cur)
      ELSE IF Over(outS[s], inc) THEN UNCHANGED <<outC, outS>> /\ Apply(StreamErr(Cur, s, FLOW))
@@ -273,7 +275,7 @@ ClientWu(s, inc) ==
 ClientSettings(iws, mfs) ==
   LET e == [E0 EXCEPT !.ev = "c", !.k = "SETTINGS", !.iws = iws, !.mfs = mfs]
       niws == IF iws >= 0 THEN iws ELSE iwsM IN
-  /\ Stimulus /\ "SETTINGS" \in CKinds
+  /\ Stimulus /\ Want("SETTINGS") /\ "SETTINGS" \in CKinds
   /\ p' = PClient(p, e) /\ After(e) /\ UNCHANGED holdM
   /\ UNCHANGED <<maxId, inS, clM, bodyM, outC, hk, hsent, hret, sent, mineM, tag, ndata, nhdrs>>
   /\ IF iws = -2 THEN UNCHANGED <<outS, iwsM, mfsM, needAck>> /\ Apply(ConnErr(Cur, FLOW))
@@ -289,7 +291,7 @@ ClientSettings(iws, mfs) ==
 
 ClientPing ==
   LET e == [E0 EXCEPT !.ev = "c", !.k = "PING", !.inc = nstep + 1] IN
-  /\ Stimulus /\ "PING" \in CKinds
+  /\ Stimulus /\ Want("PING") /\ "PING" \in CKinds
   /\ p' = PClient(p, e) /\ After(e) /\ UNCHANGED holdM
   /\ UNCHANGED <<maxId, inS, clM, bodyM, outC, outS, iwsM, mfsM, needAck, hk, hsent, hret, sent,
                  mineM, tag, ndata, nhdrs>>
@@ -298,7 +300,7 @@ ClientPing ==
 \* frames without effect on this state (PRIORITY, PING ACK, unknown types)
 ClientNoEffect(k, s) ==
   LET e == [E0 EXCEPT !.ev = "c", !.k = k, !.s = s] IN
-  /\ Stimulus /\ k \in CKinds
+  /\ Stimulus /\ Want("NOEFF") /\ k \in CKinds
   /\ p' = PClient(p, e) /\ After(e) /\ UNCHANGED holdM
   /\ UNCHANGED <<maxId, inS, clM, bodyM, outC, outS, iwsM, mfsM, needAck, hk, hsent, hret, sent,
                  mineM, tag, ndata, nhdrs>>
@@ -307,7 +309,7 @@ ClientNoEffect(k, s) ==
 \* frames the framer turns into a connection error PROTOCOL_ERROR
 ClientConnErr(k, s) ==
   LET e == [E0 EXCEPT !.ev = "c", !.k = k, !.s = s] IN
-  /\ Stimulus /\ k \in CKinds
+  /\ Stimulus /\ Want("CONNERR") /\ k \in CKinds
   /\ p' = PClient(p, e) /\ After(e) /\ UNCHANGED holdM
   /\ UNCHANGED <<maxId, inS, clM, bodyM, outC, outS, iwsM, mfsM, needAck, hk, hsent, hret, sent,
                  mineM, tag, ndata, nhdrs>>
@@ -318,7 +320,7 @@ ClientConnErr(k, s) ==
 (***************************************************************************)
 HCmd(s, op, n) ==
   LET e == [E0 EXCEPT !.ev = "hc", !.s = s, !.op = op, !.n = n] IN
-  /\ Stimulus /\ op \in HOps /\ hs[s] = "idle"
+  /\ Stimulus /\ Want("h-" \o op) /\ op \in HOps /\ hs[s] = "idle"
   /\ p' = PHcmd(p, e) /\ After(e) /\ UNCHANGED holdM
   /\ UNCHANGED <<st, maxId, inC, inS, buf, bst, clM, bodyM, outC, outS, iwsM, mfsM, ctl, sq, needAck,
                  ga, needGA, conn, sent, mineM, tag, ndata, nhdrs>>
@@ -348,7 +350,7 @@ HStart(s) ==
   /\ hs' = [hs EXCEPT ![s] = "idle"]
   /\ p' = PHandler(p, [E0 EXCEPT !.ev = "h", !.s = s, !.op = "start"])
   /\ UNCHANGED <<st, maxId, inC, inS, buf, bst, clM, bodyM, outC, outS, iwsM, mfsM, ctl, sq, needAck,
-                 ga, needGA, conn, hk, hprog, hsent, hret, sent, mineM, tag, turn, nstep, ndata, nhdrs, last, holdM>>
+                 ga, needGA, conn, hk, hprog, hsent, hret, sent, mineM, tag, turn, nstep, ndata, nhdrs, last, holdM, want>>
 
 \* writeFrameFromHandler: the message reaches serve() and is queued (or, on a closed stream,
 \* skipped by startFrameWrite: only zero-cost frames get here, see HCmd)
@@ -361,7 +363,7 @@ HPush(s) ==
        ELSE /\ sq' = sq /\ hprog' = [hprog EXCEPT ![s] = <<>>]
             /\ hs' = [hs EXCEPT ![s] = IF hret[s] THEN "gone" ELSE "idle"]
   /\ UNCHANGED <<p, st, maxId, inC, inS, buf, bst, clM, bodyM, outC, outS, iwsM, mfsM, ctl, needAck,
-                 ga, needGA, conn, hk, hsent, hret, sent, mineM, tag, turn, nstep, ndata, nhdrs, last, holdM>>
+                 ga, needGA, conn, hk, hsent, hret, sent, mineM, tag, turn, nstep, ndata, nhdrs, last, holdM, want>>
 
 \* RequestBody.Read returns; noteBodyRead on the serve loop
 HReadDone(s) ==
@@ -379,7 +381,7 @@ HReadDone(s) ==
                /\ sq' = [sq EXCEPT ![s] = Append(@, Q([Fr("WU", s) EXCEPT !.inc = n], FALSE))]
           ELSE UNCHANGED <<inS, sq>>
   /\ UNCHANGED <<st, maxId, bst, clM, bodyM, outC, outS, iwsM, mfsM, needAck, ga, needGA, conn, hk,
-                 hprog, hsent, hret, sent, mineM, tag, turn, nstep, ndata, nhdrs, last, holdM>>
+                 hprog, hsent, hret, sent, mineM, tag, turn, nstep, ndata, nhdrs, last, holdM, want>>
 
 (***************************************************************************)
 (* scheduleFrameWrite + writeFrames + wroteFrame                           *)
@@ -445,7 +447,7 @@ WriteFrame ==
   /\ Running
   /\ WriteGoAway \/ WriteAck \/ WriteCtl \/ (\E s \in Sid : WriteNoCost(s)) \/ (\E s \in Sid : WriteData(s))
   /\ UNCHANGED <<maxId, clM, bodyM, iwsM, mfsM, hk, hsent, hret, mineM, tag, turn, nstep, ndata, nhdrs,
-                 last, holdM>>
+                 last, holdM, want>>
 
 CanWrite == needGA \/ needAck \/ ((ga = -1 \/ ga = NOERR) /\ (ctl # <<>> \/ \E s \in Sid : NoCost(s) \/ CanData(s)))
 Busy == conn = "up" /\ (CanWrite \/ \E s \in Sid : hs[s] = "new" \/ (hs[s] = "push" /\ hprog[s] # <<>>)
@@ -457,7 +459,7 @@ Quiesce ==
   /\ turn' = "stim" /\ last' = E0
   /\ UNCHANGED <<st, maxId, inC, inS, buf, bst, clM, bodyM, outC, outS, iwsM, mfsM, ctl, sq, needAck,
                  ga, needGA, conn, hs, hk, hprog, hsent, hret, sent, mineM, tag, nstep, ndata, nhdrs,
-                 holdM>>
+                 holdM, want>>
 
 StimNext ==
   \/ \E s \in SidsUsed, r \in Reqs, es \in BOOLEAN, cl \in CLs :
